@@ -542,3 +542,14 @@ Theorem C17_protect_online_is_via_dc : forall c dns oracle r1 r2 r3 ns cache dat
   = protect_via_dc c (protect_getkey dns oracle server dom u p a) cache r1 r2 r3 data sid rkid ns.
 Proof. exact protect_online_via_dc. Qed.
 Print Assumptions C17_protect_online_is_via_dc.
+
+(* ---- how MANY operations: the checking world above constrains every create_rpc_connection / bind / request the source performs,
+   not their number (a source that repeated a block would satisfy the ties). The regenerated bodies contain exactly two connection
+   set-ups, two binds, two requests, one GetKey stub, two bind-result checks, one ept_map and one GetKey result extraction, and no
+   loop or comprehension: every site runs at most once per call, in program order ---- *)
+From V Require Import Prelude.PySyntax Proofs.C17CallSites.
+Theorem C17_flow_call_sites :
+  conversation_sites "create_rpc_connection" k_flow_sync_get_key = [2; 2; 2; 1; 2; 1; 1]%nat /\ loop_free k_flow_sync_get_key = true /\
+  conversation_sites "async_create_rpc_connection" k_flow_async_get_key = [2; 2; 2; 1; 2; 1; 1]%nat /\ loop_free k_flow_async_get_key = true.
+Proof. exact (conj (proj1 sync_get_key_sites) (conj (proj2 sync_get_key_sites) async_get_key_sites)). Qed.
+Print Assumptions C17_flow_call_sites.
